@@ -215,3 +215,11 @@ package module
 //@   trusted
 //@   pure
 //@   ensures len(bs) == 20 && seq(bs) == pid_bytes(id)
+
+// C33: identity equality is equality of the 20 id bytes
+//@ property C33
+//@ func (id PeerID) Equal(a) (r)
+//@   iface
+//@   trusted
+//@   pure
+//@   ensures a != nil ==> r == (pid_bytes(id) == pid_bytes(a))
